@@ -985,6 +985,22 @@ func (vc *VC) needSid() {
 	vc.declSet["sid16"] = true
 }
 
+// needSidc: sidc16 is sid16 over clamped bytes (the same number on every real state, where the byte heap only holds bytes);
+// it lets byte-wise equalities stated through spec-level (clamped) reads conclude equal identities.
+func (vc *VC) needSidc() {
+	vc.needSid()
+	vc.needClamp()
+	if vc.declSet["sidc16"] {
+		return
+	}
+	var sel []string
+	for k := 0; k < 16; k++ {
+		sel = append(sel, fmt.Sprintf("(bclamp (select (select E r) (+ o %d)))", k))
+	}
+	vc.macros = append(vc.macros, "(define-fun sidc16 ((E (Array Int (Array Int Int))) (r Int) (o Int)) Int (sum16 "+strings.Join(sel, " ")+"))")
+	vc.declSet["sidc16"] = true
+}
+
 // quantRec remembers a universally quantified spec formula so that emit() can add ground instances of it.
 type quantRec struct {
 	BV    string   // first bound variable
@@ -1209,7 +1225,7 @@ func (e *Env) callExpr(n *ast.CallExpr) Val {
 			reg = v.S
 		}
 		return Val{K: KInt, S: Sel(vc.heapGet(e.st, names[0], arr2Sort(sorts[0])), reg)}
-	case "sid":
+	case "sid", "sidc":
 		// identity of a 16-byte checksum held in a byte slice: the 128-bit number its bytes spell (injective, no axioms needed)
 		v := arg(0)
 		if v.K == KInt && v.T != nil {
@@ -1225,6 +1241,10 @@ func (e *Env) callExpr(n *ast.CallExpr) Val {
 		// (byte heap, region, offset) so that the 16 selects are not spelled out at every occurrence
 		vc.needSid()
 		t := app("sid16", h, v.Reg, v.Off)
+		if fname == "sidc" {
+			vc.needSidc()
+			t = app("sidc16", h, v.Reg, v.Off)
+		}
 		if !strings.Contains(t, "!q") {
 			t = vc.forceName("sid", "Int", t)
 		}
